@@ -330,6 +330,24 @@ Definition verify (T : table) (d : descr) : perr + descr :=
   end.
 
 (* ------------------------------------------------------------------ *)
+(* PilotDescription._verify -- written by hand; translators/descr.py stops if the
+   source text of the method is no longer the one modelled here *)
+
+Definition pd_rules (d : descr) : bool :=
+  let isset := fun k : string => truthy (getv k d) in
+  isset "resource"%string
+  && negb (isset "backup_nodes"%string && negb (isset "nodes"%string))
+  && (if isset "nodes"%string
+      then negb (isset "cores"%string) && negb (isset "gpus"%string)
+      else isset "cores"%string).
+
+Definition pd_verify (T : table) (d : descr) : perr + descr :=
+  match typecheck (t_schema T) d with
+  | inl e => inl e
+  | inr d1 => if pd_rules d1 then inr d1 else inl ValueError
+  end.
+
+(* ------------------------------------------------------------------ *)
 (* well-formedness of a table: what the general theorems need          *)
 
 Definition atype_eqb (a b : atype) : bool :=
